@@ -249,6 +249,8 @@ def run_check(prop, tier="quick", base=0, jobs=None, budget=None, runs=None, out
         for fut in cf.as_completed(futs):
             try:
                 part = fut.result()
+            except cf.CancelledError:
+                continue
             except Exception:
                 harness_errors.append("worker died: %s" % traceback.format_exc())
                 continue
@@ -263,6 +265,10 @@ def run_check(prop, tier="quick", base=0, jobs=None, budget=None, runs=None, out
                 if len(agg["digests"]) < 3:
                     agg["digests"][k] = v
             found.extend(part["violations"])
+            if part["violations"] and os.environ.get("VERIF_STOP_ON_FIRST"):
+                # sensitivity self-test: one violation decides; do not start the remaining chunks
+                for other in futs:
+                    other.cancel()
             for err in part["errors"]:
                 if err.startswith("timeout") and prop in TERMINATION_PROPS:
                     found.append({"signature": "%s|timeout|" % TERMINATION_PROPS[prop],
@@ -283,7 +289,7 @@ def run_check(prop, tier="quick", base=0, jobs=None, budget=None, runs=None, out
     for sig, item in sorted(by_sig.items()):
         if known.is_known(sig):
             continue
-        if len(violations) >= MAX_REPORTED:
+        if len(violations) >= int(os.environ.get("VERIF_MAX_REPORTED", MAX_REPORTED)):
             # one confirmed replay decides the exit code; minimising and re-confirming dozens of
             # signatures of one defect would only cost wall time
             unreported += 1
